@@ -1125,14 +1125,15 @@ impl ActiveFile {
 fn dir_prefix_ext(file_set: impl AsRef<Path>) -> Result<(String, String, String), Error> {
     let file_set = file_set.as_ref();
 
-    let dir = if let Some(parent) = file_set.parent() {
-        parent
+    let dir = match file_set.parent() {
+        // A template that's just a file name is relative to the current directory
+        // The empty path can't be opened or listed, so it needs to be named explicitly
+        Some(parent) if !parent.as_os_str().is_empty() => parent
             .to_str()
             .ok_or_else(|| "paths must be valid UTF8")
             .map_err(Error::new)?
-            .to_owned()
-    } else {
-        String::new()
+            .to_owned(),
+        _ => String::from("."),
     };
 
     let prefix = file_set
